@@ -278,6 +278,14 @@ def build(app):
         # same URL for every request of this kind; what differs is a request header only
         raise ValueError('boom-' + (app.request.headers.get('X-M') or '?'))
 
+    @app.route('/u/{name:rex(Z[0-9]+z)}/p/{n:int()}/{rest:path()}/end')
+    def filtered(name, n, rest):
+        # URL arguments produced by the route filters (regular expression, integer, path)
+        note('filtered:args', (name, n, rest))
+        note('filtered:url_args', sorted(app.request.url_args.items()))
+        read_all(app, 'r1')
+        return 'filtered-%s-%d-%s' % (name, n, rest)
+
     @app.route('/dated/<m>')
     def dated(m):
         # cookies with request-specific expiry dates (formatted by the framework), one deleted cookie
